@@ -73,6 +73,18 @@ pub fn run_one(sc: &Value) -> Value {
         native["smt"] = json!({"root0": word_json(&Word::from(root0)), "root": word_json(&Word::from(smt.root())), "results": olds});
         advice = advice.with_merkle_store(store).with_map(map);
     }
+    // sponge absorption from a given hasher state (capacity first): rate overwritten by each block of 8 elements
+    if let Some(ab) = sc.get("absorb") {
+        let init: Vec<Felt> = ab["init"].as_array().unwrap().iter().map(|x| Felt::new(u(x))).collect();
+        let els: Vec<Felt> = ab["elems"].as_array().unwrap().iter().map(|x| Felt::new(u(x))).collect();
+        let mut state = [vm_core::ZERO; 12];
+        state.copy_from_slice(&init[..12]);
+        for blk in els.chunks(8) {
+            state[4..12].copy_from_slice(blk);
+            Rpo256::apply_permutation(&mut state);
+        }
+        native["absorb"] = json!(state.iter().map(|f| f.as_int().to_string()).collect::<Vec<_>>());
+    }
     if let Some(h) = sc["hash_elems"].as_array() {
         let els: Vec<Felt> = h.iter().map(|x| Felt::new(u(x))).collect();
         native["hash"] = word_json(&Word::from(Rpo256::hash_elements(&els)));
